@@ -77,21 +77,23 @@ def emitBase (e : Em) : Em :=
 inductive Dangling | none | s8 | u16
   deriving DecidableEq, Repr
 
+/-- what `emitN` does after a successful `write`: listing record, address, dangling reference -/
+def emitTail (e1 : Em) (kind : LineKind) (n : Nat) (ins label fmt : String) (dg : Dangling) : Em :=
+  let e2 := if e1.genText then
+      let b := emitBase e1
+      { b with lines := b.lines ++ [⟨kind, b.address, n, ins, label, fmt, []⟩] }
+    else e1
+  let e3 := { e2 with address := e2.address + n }
+  match dg with
+  | .none => e3
+  | .s8 => { e3 with dS8 := addRef e3.dS8 label (e3.address - 1) }
+  | .u16 => { e3 with dU16 := addRef e3.dU16 label (e3.address - 2) }
+
 /-- `emit1..emit4`, `emit2Label`, `emit3Label` -/
 def emit (e : Em) (kind : LineKind) (d : List Nat) (ins label fmt : String) (dg : Dangling) : Em × Res :=
   match write e d with
   | none => (e, .refused)
-  | some e1 =>
-    let e2 := if e1.genText then
-        let b := emitBase e1
-        { b with lines := b.lines ++ [⟨kind, b.address, d.length, ins, label, fmt, []⟩] }
-      else e1
-    let e3 := { e2 with address := e2.address + d.length }
-    let e4 := match dg with
-      | .none => e3
-      | .s8 => { e3 with dS8 := addRef e3.dS8 label (e3.address - 1) }
-      | .u16 => { e3 with dU16 := addRef e3.dU16 label (e3.address - 2) }
-    (e4, .ok)
+  | some e1 => (emitTail e1 kind d.length ins label fmt dg, .ok)
 
 def isM16 (flags : Nat) : Bool := flags / 32 % 2 == 0
 def isX16 (flags : Nat) : Bool := flags / 16 % 2 == 0
@@ -242,26 +244,42 @@ structure Rec where
   text : String
   deriving DecidableEq, Repr
 
+/-- number of code bytes a listing record covers (what the writers slice out of `code`) -/
+def nBytes (l : Line) : Nat :=
+  match l.kind with
+  | .ins1 => 1 | .ins2 | .ins2Label => 2 | .ins3 | .ins3Label => 3 | .ins4 => 4
+  | .db => l.byteCount
+  | .base | .comment | .label => 0
+
 def lineBytes (e : Em) (l : Line) : Option (List Nat) :=
-  let n := match l.kind with
-    | .ins1 => 1 | .ins2 | .ins2Label => 2 | .ins3 | .ins3Label => 3 | .ins4 => 4
-    | .db => l.byteCount
-    | .base | .comment | .label => 0
-  if n = 0 then some []
-  else if l.address < e.base ∨ l.address - e.base + n > e.code.length then none
-  else some ((e.code.drop (l.address - e.base)).take n)
+  if nBytes l = 0 then some []
+  else if l.address < e.base ∨ l.address - e.base + nBytes l > e.code.length then none
+  else some ((e.code.drop (l.address - e.base)).take (nBytes l))
 
-/-- `WriteHexTo`: `none` = the Go code would slice out of range -/
-def hexRecords (e : Em) : Option (List Rec) :=
-  e.lines.mapM (fun l => (lineBytes e l).map (fun bs => ⟨l.kind, l.address, bs,
-    match l.kind with | .comment => l.ins | .label => l.label | _ => ""⟩))
+def hexText (l : Line) : String :=
+  match l.kind with | .comment => l.ins | .label => l.label | _ => ""
 
-/-- `WriteTextTo` prints, for data lines, the `db` text rendered from the block at emit time -/
-def textRecords (e : Em) : Option (List Rec) :=
-  e.lines.mapM (fun l =>
-    match l.kind with
-    | .db => some ⟨l.kind, l.address, l.data, ""⟩
-    | _ => (lineBytes e l).map (fun bs => ⟨l.kind, l.address, bs,
-      match l.kind with | .comment => l.ins | .label => l.label | .ins2Label | .ins3Label => l.label | _ => ""⟩))
+def textText (l : Line) : String :=
+  match l.kind with | .comment => l.ins | .label => l.label | .ins2Label | .ins3Label => l.label | _ => ""
+
+/-- `WriteHexTo`: one record per line; `none` = the Go code would slice out of range -/
+def hexRecsOf (e : Em) : List Line → Option (List Rec)
+  | [] => some []
+  | l :: ls =>
+    match lineBytes e l, hexRecsOf e ls with
+    | some bs, some rs => some (⟨l.kind, l.address, bs, hexText l⟩ :: rs)
+    | _, _ => none
+
+def hexRecords (e : Em) : Option (List Rec) := hexRecsOf e e.lines
+
+/-- `WriteTextTo`: data lines print the `db` text rendered from the block at emit time, instruction lines slice `code` -/
+def textRecsOf (e : Em) : List Line → Option (List Rec)
+  | [] => some []
+  | l :: ls =>
+    match (if l.kind = .db then some l.data else lineBytes e l), textRecsOf e ls with
+    | some bs, some rs => some (⟨l.kind, l.address, bs, textText l⟩ :: rs)
+    | _, _ => none
+
+def textRecords (e : Em) : Option (List Rec) := textRecsOf e e.lines
 
 end AsmModel
